@@ -64,6 +64,7 @@ func init() {
 		return o
 	}}
 	properties["T05"] = &propertyDef{Decides: "debug", Run: func(c *rules.Ctx) []report.Obligation { return append(c.EXT("EXT"), c.INC("INC")...) }}
+	properties["T07"] = &propertyDef{Decides: "debug", Run: func(c *rules.Ctx) []report.Obligation { return append(c.TPL("TPL"), c.INV("INV")...) }}
 	properties["C01"] = &propertyDef{
 		Decides:    "no unchecked type assertion on input-derived data in code reachable from the load entry points outside the proved / justified / known set (PANIC-TA)",
 		NotDecided: "termination, stack bounds, nil dereferences, panics inside dependencies",
